@@ -287,6 +287,31 @@ let suite_usk (t : toks) : string =
             Buffer.add_string b (Printf.sprintf " REM %d" (List.length (urest s2)));
             Buffer.contents b))
 
-let suites = [ ("urt", suite_urt); ("usk", suite_usk); ("rt", suite_rt); ("rd", suite_rd); ("ard", suite_ard); ("sk", suite_sk);
+(* rds <binary|binary_le|compact|unsafe> <sync|async[:sched]> <hex> <comma separated ids to skip|->
+   a tolerant struct reader: listed field ids are skipped with the protocol's skipper *)
+let suite_rds (t : toks) : string =
+  let pks = next t in
+  let mode = next t in
+  let input = bytes_of_hex (next t) in
+  let ids = (match next t with "-" -> [] | s -> List.map z_of_string (String.split_on_char ',' s)) in
+  let skipid (z : z) : bool = List.exists (fun i -> Z.eqb i z) ids in
+  let fuel = nat_of_int (List.length input + 4) in
+  let fin (v : tval) (rem : int) : string =
+    let b = Buffer.create 64 in
+    Buffer.add_string b "ok "; show_val b v;
+    Buffer.add_string b (Printf.sprintf " REM %d" rem); Buffer.contents b in
+  if pks = "unsafe" then
+    (match utread_struct skipid fuel { ubuf = input; uidx = O } with
+     | (Err _ | Panic _) as r -> show_res_err r
+     | Ok (v, s) -> fin v (List.length (urest s)))
+  else
+    let p = pk_of_string pks in
+    let r = if mode = "sync" then tread_struct p skipid fuel { rbuf = input; rc = r0 }
+      else atread_struct p skipid fuel { rbuf = input; rc = r0 } in
+    (match r with
+     | (Err _ | Panic _) as r -> show_res_err r
+     | Ok (v, s) -> fin v (List.length s.rbuf))
+
+let suites = [ ("rds", suite_rds); ("urt", suite_urt); ("usk", suite_usk); ("rt", suite_rt); ("rd", suite_rd); ("ard", suite_ard); ("sk", suite_sk);
                ("msgw", suite_msgw); ("msgr", suite_msgr); ("spec", suite_spec); ("specmsg", suite_specmsg);
                ("appw", suite_appw) ]
